@@ -121,7 +121,10 @@ class BranchingList:
             if node.case_type==Keyword.CASE:
                 pass
             elif node.case_type==Keyword.ELSE and self.cases:
-                pass
+                # an @else continues an open block of its own level that has no @else yet
+                open_paths = {self.cases[self.branches[b].cases[-1]].path: b for b in self.state}
+                if path_new not in open_paths or Keyword.ELSE in self.branches[open_paths[path_new]].types:
+                    raise Exception(f"Invalid condition:", node.code)
             elif node.case_type==Keyword.END and self.cases and path_old==path_new:
                 self._close_branch()
                 return
